@@ -1,4 +1,5 @@
 import ZmqVerif.Lemmas.WorldMaps
+import ZmqVerif.Lemmas.WorldSend
 /-!
 # C10 — round-robin senders deliver each message to exactly one peer, in rotation
 
@@ -113,5 +114,49 @@ theorem C10_one_peer (w : World) (sid : Nat) (s : Socket) (m : Msg) (k : Ident) 
 
 /-- non-vacuity: three peers, three sends, three different targets, queue restored -/
 example : sendMany 3 [1, 2, 3] = ([1, 2, 3], [1, 2, 3]) := by decide
+
+/-! ### "has written the COMPLETE message to exactly one peer by the time it returns" — over all polls of the send -/
+
+/-- `SendInv w sid k p base enc st`: the invariant of a send in progress to peer `k` (pipe `p`) — beyond `base` (where
+the connection's outgoing stream stood when the send began) the connection has been handed nothing yet, or the WHOLE
+encoding, never a part and never twice.  It holds when the send starts … -/
+theorem C10_world_send_start (w : World) (sid : Nat) (s : Socket) (k : Ident) (wr : Wr) (enc : Bytes)
+    (hs : getSock w sid = some s) (hp : ilookup s.peers k = some wr) :
+    SendInv w sid k wr.pipe (outOf w.pipes wr) enc (.feeding enc) :=
+  SendInv.start w sid s k wr enc hs hp
+
+/-- … every `Pending` poll of a round-robin send (PUSH, DEALER) keeps it, and `Ready(Ok)` means: the chosen
+connection's wire is EXACTLY `base` followed by the complete encoding — under any back-pressure, over any number
+of polls — while no other connection's write side is touched (also when the write fails and the peer is forgotten) … -/
+theorem C10_world_rr_poll (fuel : Nat) (w : World) (sid : Nat) (m : Msg) (k : Ident) (p : Nat) (base enc : Bytes) (st : SendSt)
+    (hinv : SendInv w sid k p base enc st) (w' : World) (f' : FutSt) (o : POut)
+    (h : sendRRPoll (fuel + 1) w sid m (some (k, st)) = (w', f', o)) :
+    (∀ j, j ≠ p → wOf w'.pipes j = wOf w.pipes j) ∧
+    (match (generalizing := false) f', o with
+     | .sendRR _ _ (some (k', st')), .pending => k' = k ∧ SendInv w' sid k p base enc st'
+     | _, .ready .okUnit => (wOf w'.pipes p).wire = base ++ enc
+     | _, .ready (.err _) => True
+     | _, _ => False) :=
+  sendRRPoll_spec fuel w sid m k p base enc st hinv w' f' o h
+
+/-- … the same for the sends that write to a peer chosen by the protocol (REQ's rotation, REP's requester, ROUTER's
+addressee) … -/
+theorem C10_world_to_poll (w : World) (sid : Nat) (k : Ident) (p : Nat) (base enc : Bytes) (st : SendSt) (sc : Bool)
+    (hinv : SendInv w sid k p base enc st) (w' : World) (f' : FutSt) (o : POut)
+    (h : sendToPoll w sid k st sc = (w', f', o)) :
+    (∀ j, j ≠ p → wOf w'.pipes j = wOf w.pipes j) ∧
+    (match (generalizing := false) f', o with
+     | .sendTo _ k' st' _, .pending => k' = k ∧ SendInv w' sid k p base enc st'
+     | _, .ready .okUnit => (wOf w'.pipes p).wire = base ++ enc
+     | _, .ready (.err _) => True
+     | _, _ => False) :=
+  sendToPoll_spec w sid k p base enc st sc hinv w' f' o h
+
+/-- … and between two polls the environment may change the pipe's write credit or make its writes fail: what has been
+handed to the connection stays handed. -/
+theorem C10_world_send_env {w : World} {sid : Nat} {k : Ident} {p : Nat} {base enc : Bytes} {st : SendSt}
+    (h : SendInv w sid k p base enc st) (w' : World) (hs : getSock w' sid = getSock w sid)
+    (hw : (wOf w'.pipes p).wire = (wOf w.pipes p).wire) : SendInv w' sid k p base enc st :=
+  h.env w' hs hw
 
 end Zmq.C10
